@@ -2,3 +2,29 @@
 
 Stdlib only (`ast`).  The repository is parsed, never imported or run.
 """
+
+# The loader hangs a `_parent` link on every AST node.  copy.deepcopy of a sub-tree would follow that link upwards and
+# copy the whole module (slow, and the copy drags a second module tree along).  Copies of AST nodes therefore stop at
+# the root's parent: the root copy gets `_parent = None`, links inside the sub-tree point at the copied nodes.
+import ast as _ast
+import copy as _copy
+
+_orig_deepcopy = _copy.deepcopy
+
+
+def _deepcopy(x, memo=None, _nil=[]):  # noqa: B006
+    if memo is None:
+        roots = [x] if isinstance(x, _ast.AST) else \
+            [e for e in x if isinstance(e, _ast.AST)] if isinstance(x, (list, tuple)) else []
+        if roots:
+            memo = {}
+            inside = {id(r) for r in roots}
+            for r in roots:
+                p = getattr(r, '_parent', None)
+                if p is not None and id(p) not in inside:
+                    memo[id(p)] = None
+    return _orig_deepcopy(x, memo)
+
+
+if getattr(_copy.deepcopy, '__name__', '') != '_deepcopy':
+    _copy.deepcopy = _deepcopy
